@@ -301,7 +301,8 @@ class IntrospectablePass(object):
         if isinstance(obj, (ast.Class, ast.Interface, ast.Record, ast.Union)):
             for field in obj.fields:
                 if field.anonymous_node:
-                    if not field.anonymous_node.introspectable:
+                    if (not field.anonymous_node.introspectable
+                    or field.anonymous_node.skip):
                         field.introspectable = False
                 else:
                     if not self._type_is_introspectable(field.type):
